@@ -33,7 +33,7 @@ def main (args : List String) : IO UInt32 := do
   for (n, ci) in env.constants.map₁.toList do
     if env.getModuleIdxFor? n == some idx then
       if let .thmInfo _ := ci then
-        if !n.isInternal then
+        if !n.isInternal && modName.isPrefixOf n then
           let axs := ((collectAxioms n : StateM Environment (Array Name)).run' env)
           thms := thms.push (Json.mkObj [("name", Json.str n.toString), ("axioms", Json.arr (axs.map (fun a => Json.str a.toString)))])
           roots := roots.push n
